@@ -4,7 +4,7 @@
 # flake, is ignored), the demonstration fails with it (3 runs) and passes without it (3 runs).
 export GOFLAGS=-mod=mod GOPROXY=off GOSUMDB=off GOTOOLCHAIN=local
 for name in "$@"; do
-  d=/verif/seeded/$name; prop=${name%%-*}; prop=${prop%[bcdefg]}
+  d=/verif/seeded/$name; prop=${name%%-*}; prop=${prop%[bcdefgh]}
   W=/tmp/wt/val-$name
   git -C /repo worktree remove --force $W 2>/dev/null; rm -rf $W
   git -C /repo worktree add -q --detach $W HEAD || exit 2
